@@ -75,6 +75,13 @@ func (w *recWriter) Write(b []byte) (int, error) {
 }
 func (w *recWriter) Flush() { w.calls = append(w.calls, []any{"FL"}) }
 
+// plainWriter hides everything but the three methods of http.ResponseWriter
+type plainWriter struct{ w *recWriter }
+
+func (p *plainWriter) Header() http.Header         { return p.w.Header() }
+func (p *plainWriter) WriteHeader(code int)        { p.w.WriteHeader(code) }
+func (p *plainWriter) Write(b []byte) (int, error) { return p.w.Write(b) }
+
 type chainRun struct {
 	outLen, outStatus int // Context.Length() / StatusCode() seen by the "out" op of handler 1 (the outermost frame)
 	log               [][]any
@@ -290,8 +297,8 @@ var chainRng = rand.New(rand.NewSource(seed()))
 // registration must accept it iff the model says so; an accepted chain must run in order and Abort() at its first
 // handler must stop it.
 func chainLimit(s *Summary, n int, accepted bool) {
-	for _, via := range []string{"GET", "group+GET", "group+prebuilt route", "group+Any"} {
-		viaGroup := via != "GET"
+	for _, via := range []string{"GET", "group+GET", "group+prebuilt route", "group+Any", "GET, then a Use() on the live route that is refused"} {
+		viaGroup := strings.HasPrefix(via, "group")
 		for _, abortFirst := range []bool{false, true} {
 			log := []int{}
 			aborted := []bool{}
@@ -325,7 +332,15 @@ func chainLimit(s *Summary, n int, accepted bool) {
 						}
 					}, mw[:half]...)
 				} else {
-					r.GET("/g/x", mk(n), mw...)
+					rt := r.GET("/g/x", mk(n), mw...)
+					if via != "GET" {
+						// a plugin tries to add more middleware than the limit allows to the registered route: refused, and the
+						// route stays what it was
+						func() {
+							defer func() { _ = recover() }()
+							rt.Use(make([]rux.HandlerFunc, 70)...)
+						}()
+					}
 				}
 			}()
 			s.Compared++
@@ -672,7 +687,13 @@ func chainRunOnce(s *Summary, c *chainCase, sp chainSplit, outerPrefix string, c
 		s.mismatch(desc("registration-panic", fmt.Sprintf("registration panicked: %v", regPanic)), c)
 		return
 	}
-	withSub := false
+	withSub, plainW := false, false
+	usesFlush := false
+	for _, sc := range c.Chain {
+		for _, op := range sc {
+			usesFlush = usesFlush || opName(op) == "flush"
+		}
+	}
 	serve := func() *chainRun {
 		run := &chainRun{rw: &recWriter{hdr: http.Header{}}}
 		cur = run
@@ -682,6 +703,10 @@ func chainRunOnce(s *Summary, c *chainCase, sp chainSplit, outerPrefix string, c
 		}
 		func() {
 			defer func() { run.panicV = recover() }()
+			if plainW {
+				r.ServeHTTP(&plainWriter{run.rw}, req) // a ResponseWriter that is nothing but a ResponseWriter (no Flusher)
+				return
+			}
 			r.ServeHTTP(run.rw, req)
 		}()
 		return run
@@ -856,7 +881,9 @@ func chainRunOnce(s *Summary, c *chainCase, sp chainSplit, outerPrefix string, c
 	}
 	// the router stays usable: follow-up requests behave as on a fresh run
 	if c.Escaped != nil {
+		plainW = !usesFlush && c.Hook != nil
 		again := serve()
+		plainW = false
 		if !reflect.DeepEqual(again.log, run.log) || (again.panicV != nil) != (run.panicV != nil) || (c.CheckW && !reflect.DeepEqual(again.rw.calls, run.rw.calls)) {
 			s.mismatch(desc("unhealthy", fmt.Sprintf("the same request repeated after the panic: log %v writer %v, first time %v %v", again.log, again.rw.calls, run.log, run.rw.calls)), c)
 			return
